@@ -392,6 +392,16 @@ impl Session {
         let mut num_adrreq = 0;
         // whether every ChMaskCntl of the current LinkADRReq block was understood
         let mut cm_known = true;
+        // Answers go out in request order; once one no longer fits, the ones after it are
+        // dropped as well (a shorter later answer must not overtake a dropped one).
+        let mut answers_full = false;
+        macro_rules! answer {
+            ($cmd:expr) => {
+                if !answers_full && !self.uplink.add_mac_command($cmd) {
+                    answers_full = true;
+                }
+            };
+        }
         while let Some(cmd) = cmd_iter.next() {
             match cmd {
                 DevStatusReq(..) => {
@@ -400,7 +410,7 @@ impl Session {
                     // For now we just return dummy value of "255"
                     let mut cmd = DevStatusAnsCreator::new();
                     let _ = cmd.set_battery(255).set_margin(snr);
-                    self.uplink.add_mac_command(cmd);
+                    answer!(cmd);
                 }
                 DlChannelReq(payload) => {
                     if region.has_fixed_channel_plan() {
@@ -412,7 +422,7 @@ impl Session {
 
                     let mut cmd = DlChannelAnsCreator::new();
                     cmd.set_channel_frequency_ack(ack_f).set_uplink_frequency_exists_ack(ack_c);
-                    self.uplink.add_mac_command(cmd);
+                    answer!(cmd);
                 }
                 LinkADRReq(payload) => {
                     // Contiguous LinkADRReq commands shall be processed in the
@@ -477,7 +487,7 @@ impl Session {
                         cmd.set_channel_mask_ack(cm_ack)
                             .set_data_rate_ack(dr.is_some())
                             .set_tx_power_ack(pw.is_some());
-                        self.uplink.add_mac_command(cmd);
+                        answer!(cmd);
                     }
                     num_adrreq = 0;
                     // A following block starts again from the mask in force, not from
@@ -506,7 +516,7 @@ impl Session {
 
                     let mut cmd = NewChannelAnsCreator::new();
                     cmd.set_channel_frequency_ack(ack_f).set_data_rate_range_ack(ack_d);
-                    self.uplink.add_mac_command(cmd);
+                    answer!(cmd);
                 }
                 RXParamSetupReq(payload) => {
                     let freq = payload.frequency().value();
@@ -536,7 +546,7 @@ impl Session {
                         .set_rx2_data_rate_ack(rx2_dr.is_some())
                         .set_channel_ack(freq_ack);
 
-                    self.uplink.add_mac_command(cmd);
+                    answer!(cmd);
 
                     // TODO: An end-device that expects to receive Class C
                     // downlink frames will send an uplink frame as soon
@@ -545,7 +555,7 @@ impl Session {
                 }
                 RXTimingSetupReq(payload) => {
                     configuration.rx1_delay = super::del_to_delay_ms(payload.delay());
-                    self.uplink.add_mac_command(RXTimingSetupAnsCreator::new());
+                    answer!(RXTimingSetupAnsCreator::new());
                 }
                 _ => (),
             }
